@@ -24,7 +24,7 @@ REQUIRED_LABELS = {t: ["python_-O:cases", "B:accept", "B:raise:v", "B:raise:r=0m
                        "B:accept:summands_related:-1", "A:accept", "A:identity",
                        "A:raise"] for t in ("quick", "thorough")}
 N, P = params.SECP_N, params.SECP_P
-VS = (0, 1, 26, 27, 28, 29, 35, 36)
+VS = (0, 1, 26, 27, 28, 29, 30, 31, 35, 36)
 try:
     from cryptography.hazmat.primitives import hashes as _ch
     from cryptography.hazmat.primitives.asymmetric import ec as _cec
@@ -114,7 +114,7 @@ def o_tiny(ctx, case):
                         if oc != "raise:v":
                             ctx.nontrivial_bulk(1)
         ctx.subspace(f"ecdsa_raw_recover on y^2=x^3+{b} over GF({p}), order {n}: "
-                     f"8 v x {p} r x {n + 2} s x {len(zs)} hashes", cnt)
+                     f"{len(VS)} v x {p} r x {n + 2} s x {len(zs)} hashes", cnt)
         ctx.sample({"p": p, "b": b, "n": n, "g": list(g), "hashes": zs}, "tiny")
 
 
@@ -175,7 +175,8 @@ def _invalid_x(start):
     return x
 
 
-HASHES = [b"\x00" * 32, b"\xff" * 32, (N - 1).to_bytes(32, "big"), N.to_bytes(32, "big"),
+HEXLIKE = [b"0" * 64, b"f" * 64, b"5" * 64, b"0123456789abcdef" * 4, b"A" * 64, b"deadbeef" * 4, b"ab" * 20, b"12" * 16]
+HASHES = HEXLIKE + [b"\x00" * 32, b"\xff" * 32, (N - 1).to_bytes(32, "big"), N.to_bytes(32, "big"),
           (N + 1).to_bytes(32, "big"), P.to_bytes(32, "big"), (2 ** 256 - 1).to_bytes(32, "big"),
           b"", b"\x01"]
 S_SPECIAL = [0, 1, 2, (N - 1) // 2, (N + 1) // 2, N - 1, N, N + 1, 2 * N, 2 * N + 5]
@@ -242,7 +243,7 @@ def t_real(ctx, shard, n):
     if shard == 0:
         gx = SECP.g[0]
         for v in VS:
-            for r in (0, 1, N - 1, N, N + 1, P - 1, gx, _invalid_x(5)):
+            for r in (0, 1, 2, 4, 6, 7, N - 1, N, N + 1, P - 1, P - N - 1, gx, _invalid_x(5)):
                 for s in (0, 1, (N - 1) // 2, (N + 1) // 2, N - 1, N, N + 1):
                     ex.append({"h": hx(HASHES[v % len(HASHES)]), "v": v, "r": r, "s": s, "origin": "grid"})
         for i, c in enumerate([1, -1] + LAMS + [-x for x in LAMS]):
